@@ -575,6 +575,26 @@ def check_C05(run):
                     bump("non_ancestor_version_present")
                 if any(r[2] is None for r in mine) and any(r[2] is not None for r in mine):
                     bump("mixed_null_and_commit_versions")
+                    if not any(r[2] is not None and git.is_ancestor(r[2], git.head_hash) for r in mine):
+                        bump("commitless_plus_foreign_version_and_no_ancestor_version")
+                anc = [r for r in mine if r[2] is not None and git.is_ancestor(r[2], git.head_hash)]
+                dists = {git.distance(git.head_hash, r[2]) for r in anc}
+                if len(dists) >= 2:
+                    bump("choice_between_ancestor_versions_at_different_distances")
+                    # would a first-parent-only distance rank them differently?
+                    def fp(h):
+                        n, c, chain = git.name_of(git.head_hash), 0, []
+                        cur = n
+                        seen = set()
+                        while cur is not None and cur not in seen:
+                            seen.add(cur)
+                            ps = git.state["commits"][cur]
+                            cur = ps[0] if ps else None
+                        return len(seen - git.ancestors(git.name_of(h)))
+                    best_true = min(anc, key=lambda r_: (git.distance(git.head_hash, r_[2]), -r_[1]))
+                    best_fp = min(anc, key=lambda r_: (fp(r_[2]), -r_[1]))
+                    if best_true != best_fp:
+                        bump("merge_where_first_parent_distance_would_pick_another_version")
         if needed or cached:
             facts["nontrivial"].append("%s-n%d-c%d-%s" % (mode, len(needed), len(cached),
                                                          "git" if git.uses_git and git.head else "nogit"))
@@ -681,6 +701,17 @@ def check_C07(run):
                 reach["multi_dep_spawn"] = reach.get("multi_dep_spawn", 0) + 1
             facts["nontrivial"].append("%s-d%d-a%d-o%d" % (d["kind"], len(expected), len(d.get("args", [])),
                                                            len(d.get("options", {}))))
+        # the version recorded for an execution is the one its COND_OUT was derived from
+        if st.after is not None and isinstance(st.after["rows"], list) and st.before is not None:
+            bset = {tuple(r) for r in (st.before["rows"] if isinstance(st.before["rows"], list) else [])}
+            new_rows = [r for r in st.after["rows"] if tuple(r) not in bset]
+            for r in new_rows:
+                mine = [sp for sp in inv.spawns if sp["task"] == r[0]]
+                if len(mine) == 1:
+                    want = os.path.join(root, "cond-out", M.out_dir_rel(r[0], r[1]))
+                    if mine[0]["env"].get("COND_OUT") != want:
+                        V.append(Violation("C07", "recorded-version-differs-from-the-COND_OUT-the-task-was-given",
+                                           {"task": r[0], "recorded": r[1], "COND_OUT": mine[0]["env"].get("COND_OUT")}, i))
         # inside the task: conductor.lib
         spawn_by_name = {"%s#%d" % (sp["task"], sp["execno"]): sp for sp in inv.spawns}
         for e in inv.trace:
